@@ -97,7 +97,7 @@ Theorem C01_shared_rejected :
   is_map ds ->
   quad_at ds i = Some q -> get_ref (qs q) = Some s ->
   quad_at ds j1 = Some q1 -> quad_at ds j2 = Some q2 ->
-  fst j1 = fst i -> fst j2 = fst i -> j1 <> i -> j2 <> i -> j1 <> j2 ->
+  fst j1 = fst i -> fst j2 = fst i -> j1 <> j2 ->
   get_ref (qo q1) = Some s -> get_ref (qo q2) = Some s ->
   exists t, entries_from_rdf F prime ds = Err t.
 Proof. exact shared_two_referrers_rejected. Qed.
@@ -108,7 +108,7 @@ Theorem C01_shared_graph_rejected :
   forall F prime ds i q s g j1 q1 j2 q2,
   is_map ds ->
   quad_at ds i = Some q -> get_ref (qs q) = Some s -> qg q = Some (NBlank g) ->
-  referrers ds (fst i) i s = [] ->
+  referrers ds (fst i) s = [] ->
   quad_at ds j1 = Some q1 -> quad_at ds j2 = Some q2 ->
   j1 <> i -> j2 <> i -> j1 <> j2 ->
   get_ref (qo q1) = Some (RBlank g) -> get_ref (qo q2) = Some (RBlank g) ->
@@ -121,8 +121,8 @@ Theorem C01_accepted_unshared :
   forall F prime ds es i q,
   is_map ds -> entries_from_rdf F prime ds = Ok es -> quad_at ds i = Some q ->
   forall q' s, quad_at ds i = Some q' -> get_ref (qs q') = Some s ->
-    (List.length (referrers ds (fst i) i s) <= 1)%nat /\
-    (referrers ds (fst i) i s = [] -> forall g, qg q' = Some (NBlank g) ->
+    (List.length (referrers ds (fst i) s) <= 1)%nat /\
+    (referrers ds (fst i) s = [] -> forall g, qg q' = Some (NBlank g) ->
      (List.length (all_referrers ds i (RBlank g)) <= 1)%nat).
 Proof. exact accepted_unshared. Qed.
 Print Assumptions C01_accepted_unshared.
@@ -145,17 +145,18 @@ Theorem C01_cycle_rejected :
 Proof. exact cycle_rejected. Qed.
 Print Assumptions C01_cycle_rejected.
 
-(* FINDING (refuted statement): a node that refers to itself is NOT always rejected.
-   The model, faithful to findParentInsideGraph's `quad == q` skip, accepts
-   {"@id":"urn:c0","name":"n0","next":{"@id":"urn:c0"}} and files `name` under
-   [next; name].  C01_cycle_rejected above covers cycles of the quad-level parent
-   relation only (length >= 2 in terms of nodes). *)
-Theorem C01_self_reference_refuted :
-  ~ (forall F prime ds, is_map ds ->
-     (exists i q s, quad_at ds i = Some q /\ get_ref (qs q) = Some s /\ get_ref (qo q) = Some s) ->
-     forall es, entries_from_rdf F prime ds <> Ok es).
-Proof. exact self_reference_rejected_refuted. Qed.
-Print Assumptions C01_self_reference_refuted.
+(* a node that refers to itself (reference cycle of length one): none of its statements
+   is merklized.  (Refuted before fix b73a54e: finding D25, witness
+   {"@id":"urn:c0","name":"n0","next":{"@id":"urn:c0"}} was accepted with `name`
+   filed under [next; name]; RDF/Theory.v keeps it as Example ds_selfref_err.) *)
+Theorem C01_self_reference_rejected :
+  forall F prime ds i q s i' q',
+  is_map ds ->
+  quad_at ds i = Some q -> get_ref (qs q) = Some s -> get_ref (qo q) = Some s ->
+  In (i', q') (value_quads ds) -> fst i' = fst i -> get_ref (qs q') = Some s ->
+  forall es, entries_from_rdf F prime ds <> Ok es.
+Proof. exact self_reference_rejected. Qed.
+Print Assumptions C01_self_reference_rejected.
 
 (* the parent walk never exhausts its fuel: any fuel above the number of quads
    suffices, whatever the relationship maps contain (cycles are cut by the
